@@ -11,7 +11,7 @@ DECIDED = [
     "LOCK: every access to the hand-over queues happens with thread_data.mutex of the same scheduler held (constructor before launch and destroy after join exempt)",
     "CONFINE: the inner task scheduler is touched only by the scheduler thread, by the constructor before/without a running thread, and by destroy after the join",
     "NOTIFY: every enqueue is followed by a notification of the scheduler's condition variable; the wake predicate reads everything a notifier changes; because the exit flag is stored without the mutex, every wait on the predicate is bounded in time (no untimed wait, no `forever` time-out constant); a record is completely written before it is linked into a hand-over queue",
-    "SHUTDOWN-ORDER: exit flag -> notify -> join -> inner clean-up -> primitive clean-ups -> release",
+    "SHUTDOWN-ORDER: exit flag -> notify -> join -> inner clean-up -> primitive clean-ups -> release; the scheduler thread is launched from a local copy of the options with join_strategy = AWS_TJS_MANUAL, so that join really waits (found D16, fixed); aws_ref_count_release decides the last reference from one fetch_sub; within a pass the cancellation records are processed before run-all",
     "DRAIN: both hand-over queues are provably empty (or drained into a consumer) between the join and the release; no local batch list is dropped while it may hold items",
     "CANCEL-NODE: each cancellation record is enqueued on every path after allocation and released after being consumed; a record's task reaches the inner cancel (which invokes unconditionally) only through a test that it is still linked / scheduled there or was removed from the hand-over queue by the request (found D14, fixed); record helpers are followed (they run where their callers run)",
     "BALANCE: no function returns holding the mutex; the wait is entered with the mutex held",
@@ -27,6 +27,15 @@ LIST_PUSH = {"aws_linked_list_push_back": 0, "aws_linked_list_push_front": 0}
 LIST_MUT_NODE = {"aws_linked_list_insert_after", "aws_linked_list_insert_before"}
 NOTIFY = {"aws_condition_variable_notify_one", "aws_condition_variable_notify_all"}
 CONSUME_TASK = {"aws_task_scheduler_schedule_now", "aws_task_scheduler_schedule_future", "aws_task_run"}
+
+
+def _assignment_of(f, ev):
+    for b in f.blocks.values():
+        for el in b.elems:
+            for n in f.walk(el):
+                if n["k"] == "bin" and n["op"] == "=" and f.d(n["a"][0]) is ev.node:
+                    return n
+    return None
 
 
 def queue_of(fn, node):
@@ -296,6 +305,22 @@ def analyse(ctx, replace=None, only=None):
         R.check(not later, "SHUTDOWN-ORDER", "nothing-after-release", where(d, rel), "release of the scheduler object is the last action",
                 "calls follow the release of the scheduler object: %s" % [x.node.get("callee") for x in later][:3])
 
+    # the destroy callback relies on aws_thread_join: the scheduler thread must be launched joinable whatever options the
+    # caller passed (aws_thread_join is a no-op for a thread launched with the MANAGED join strategy)
+    nw = fns["aws_thread_scheduler_new"]
+    ln = nw.calls("aws_thread_launch")
+    if R.require(len(ln) == 1, "aws_thread_scheduler_new: aws_thread_launch call not found"):
+        opt = RU.strip_addr(nw, RU.arg(nw, ln[0].node, 3))
+        manual = P.enums.get("AWS_TJS_MANUAL")
+        okj, detj = False, "the caller's options are passed on unchanged"
+        if opt is not None and opt["k"] == "var" and opt.get("sc") == "local" and RU.uncast(nw, RU.arg(nw, ln[0].node, 3))["k"] == "un":
+            sts_ = [e for e in nw.field_accesses(rec="aws_thread_options", field="join_strategy", modes=("w",)) if nw.show(nw.d(e.node["a"][0])) == opt["n"]]
+            vals_ = [nw.is_const(_assignment_of(nw, e)["a"][1]) for e in sts_ if _assignment_of(nw, e)]
+            domn = dominators(nw)
+            okj = bool(sts_) and all(v == manual for v in vals_) and any(ev_dominates(nw, e, ln[0], domn) for e in sts_) and not [e for e in sts_ if e in RU.reach_from(nw, ln[0])]
+            detj = "join_strategy stores on the local options: %s" % vals_
+        R.check(okj and manual is not None, "SHUTDOWN-ORDER", "thread-launched-joinable", where(nw, ln[0]), "the scheduler thread is launched from a local copy of the options whose join_strategy is set to AWS_TJS_MANUAL",
+                "the scheduler thread is launched with the caller's join strategy (%s): with AWS_TJS_MANAGED the destroy callback's aws_thread_join does nothing, so the final release frees the scheduler while its thread is still running" % detj)
     # the final release: the count is decremented by ONE atomic read-modify-write whose result alone decides who runs the
     # destroy callback (a separate load / store lets two releasers both see "not last")
     rc = P.fn("aws_ref_count_release")
@@ -652,6 +677,7 @@ def noblock(R, fns, helpers=None):
 
 
 MUTANTS = [
+    {"name": "thread-launched-with-callers-join-strategy", "file": FILE, "expect": "SHUTDOWN-ORDER", "old": "    launch_options.join_strategy = AWS_TJS_MANUAL;\n", "new": ""},
     {"name": "release-fast-path-load-then-store", "file": "source/ref_count.c", "expect": "SHUTDOWN-ORDER",
      "old": "    size_t old_value = aws_atomic_fetch_sub(&ref_count->ref_count, 1);\n    AWS_ASSERT(old_value > 0 && \"refcount has gone negative\");\n    if (old_value == 1) {\n        ref_count->on_zero_fn(ref_count->object);\n    }",
      "new": "    if (aws_atomic_load_int(&ref_count->ref_count) == 1) {\n        aws_atomic_store_int(&ref_count->ref_count, 0);\n        ref_count->on_zero_fn(ref_count->object);\n        return 0;\n    }\n    size_t old_value = aws_atomic_fetch_sub(&ref_count->ref_count, 1);"},
